@@ -614,12 +614,16 @@ def writes_to_field(body, owner_adt, field):
     return out
 
 
-def is_cleanup_region(body, block):
-    """True if nothing reachable from `block` has an effect other than drops, drop-flag /
+def is_cleanup_region(body, block, after_stmt=None):
+    """True if nothing reachable from `block` (from the statement after `after_stmt` on, if given: the test may share
+    its block with the last real statement of the function) has an effect other than drops, drop-flag /
     discriminant temporaries and the unit return value: a test there cannot influence state"""
+    again = after_stmt is not None and block in set(x for t_ in body.succ(block) for x in body.reachable(t_))
     for b in body.reachable(block):
         bb = body.blocks[b]
-        for s in bb["stmts"]:
+        for si_, s in enumerate(bb["stmts"]):
+            if b == block and after_stmt is not None and not again and si_ <= after_stmt:
+                continue
             if s["k"] != "assign":
                 return False
             d = s["place"]
